@@ -38,6 +38,7 @@
 EXTENDS Naturals, Sequences, FiniteSets, TLC, Json, IOUtils
 
 CONSTANTS MaxN, Source, DocStates,
+          LateBacks,     \* "upto1" | "two": how many TYPE_CHECKING imports Source = "late" places (none or one / exactly two)
           LateOrders,    \* "all" | "two": module orders enumerated by Source = "late" (every order / as written and reversed)
           EarlyOrder     \* "allbases" | "c3": what Class.mro() answers BEFORE post-processing (see EarlyMro)
 
@@ -55,8 +56,8 @@ PosIn(s, x) == Min({i \in 1..Len(s) : s[i] = x})
 FileCases == IF Source = "file" THEN JsonDeserialize(IOEnv.CASE_FILE) ELSE <<>>
 
 VARIABLES cid, n, bases, born, member, phase, fin, k, mro, warn,
-          lay      \* one class per module: [order |-> modules as added to the system, back |-> <<c, x>>: module c imports
-                   \* module x under `if TYPE_CHECKING:` before anything else (<<0, 0>>: no such import)]
+          lay      \* one class per module: [order |-> modules as added to the system, back |-> sequence of <<c, x>>: module c
+                   \* imports module x under `if TYPE_CHECKING:` before anything else (in this order within one module)]
 vars == <<cid, n, bases, born, member, phase, fin, k, mro, warn, lay>>
 
 \* ===================================================================== REFERENCE
@@ -193,7 +194,8 @@ KF_EarlyLookupBeforeBaseResolved(c) == /\ EarlyOrder = "c3"
 \*      ascending order ; class m ; early lookups.
 RECURSIVE SortedSeq(_)
 SortedSeq(S) == IF S = {} THEN <<>> ELSE <<Min(S)>> \o SortedSeq(S \ {Min(S)})
-ImportsOf(m, bk) == (IF bk[1] = m THEN <<bk[2]>> ELSE <<>>) \o SortedSeq(Range(bases[m]))
+BackOf(m, bk) == LET sel == SelectSeq(bk, LAMBDA p : p[1] = m) IN [i \in 1..Len(sel) |-> sel[i][2]]
+ImportsOf(m, bk) == BackOf(m, bk) \o SortedSeq(Range(bases[m]))
 RECURSIVE Proc(_, _, _), ProcImports(_, _, _, _)
 Proc(m, st, bk) == IF m \in st.started THEN st
                    ELSE LET st1 == ProcImports(m, 1, [st EXCEPT !.started = @ \cup {m}], bk)
@@ -204,7 +206,12 @@ RECURSIVE ProcAll(_, _, _)
 ProcAll(order, st, bk) == IF Len(order) = 0 THEN st ELSE ProcAll(Tail(order), Proc(Head(order), st, bk), bk)
 CreatedSeq(order, bk) == ProcAll(order, [started |-> {}, created |-> <<>>], bk).created
 BornOf(order, bk) == [c \in 1..Len(order) |-> PosIn(CreatedSeq(order, bk), c)]
-NoLay == [order |-> <<>>, back |-> <<0, 0>>]
+NoLay == [order |-> <<>>, back |-> <<>>]
+BackPairs(m) == {<<c, x>> : c \in 1..m, x \in 1..m} \ {<<c, c>> : c \in 1..m}
+BackChoices(m) == IF LateBacks = "two"
+                    THEN {<<p, q>> : p \in BackPairs(m), q \in BackPairs(m)} \ {<<p, q>> \in BackPairs(m) \X BackPairs(m) :
+                                                                                   p = q \/ (p[1] # q[1] /\ ~(p[1] < q[1]))}
+                    ELSE {<<>>} \cup {<<p>> : p \in BackPairs(m)}
 
 \* ===================================================================== behaviours
 Ident(m) == [i \in 1..m |-> i]
@@ -213,14 +220,14 @@ InitBuild == /\ Source \in {"enum", "members", "late"} /\ cid = 0 /\ n = 0 /\ la
 InitGraph == /\ Source = "graph" /\ cid = 0 /\ n = MaxN
              /\ bases \in [1..MaxN -> PermSeqs(1..MaxN)]
              /\ \A c \in 1..MaxN : c \notin Range(bases[c])
-             /\ lay = [order |-> Ident(MaxN), back |-> <<0, 0>>]
+             /\ lay = [order |-> Ident(MaxN), back |-> <<>>]
              /\ born = BornOf(lay.order, lay.back) /\ member = [i \in 1..MaxN |-> "absent"] /\ phase = "post"
 InitFile == /\ Source = "file" /\ cid \in 1..Len(FileCases)
             /\ n = Len(FileCases[cid].bases)
             /\ bases = FileCases[cid].bases /\ member = FileCases[cid].member
             \* born = <<>> in the file: one class per module, modules added in the order 1..n
-            /\ lay = IF Len(FileCases[cid].born) = 0 THEN [order |-> Ident(n), back |-> <<0, 0>>] ELSE NoLay
-            /\ born = IF Len(FileCases[cid].born) = 0 THEN BornOf(Ident(n), <<0, 0>>) ELSE FileCases[cid].born
+            /\ lay = IF Len(FileCases[cid].born) = 0 THEN [order |-> Ident(n), back |-> <<>>] ELSE NoLay
+            /\ born = IF Len(FileCases[cid].born) = 0 THEN BornOf(Ident(n), <<>>) ELSE FileCases[cid].born
             /\ phase = "post"
 Init == /\ (InitBuild \/ InitGraph \/ InitFile)
         /\ fin = {} /\ k = 0 /\ mro = [i \in 1..n |-> <<>>] /\ warn = [i \in 1..n |-> "none"]
@@ -233,11 +240,10 @@ AddClass == /\ phase = "build" /\ n < MaxN
             /\ UNCHANGED <<cid, phase, fin, k, lay>>
 Built == /\ phase = "build" /\ n = MaxN
          /\ IF Source \in {"members", "late"} THEN member' \in [1..n -> DocStates] ELSE UNCHANGED member
-         \* "late": one class per module, the modules added in any order, at most one TYPE_CHECKING import (which may
-         \* close an import cycle: the only way a base is still unknown when its subclass is analysed)
+         \* "late": one class per module, the modules added in any order, up to two TYPE_CHECKING imports (which may
+         \* close import cycles: the only way a base is still unknown when its subclass is analysed)
          /\ IF Source = "late"
-              THEN /\ \E o \in {p \in [1..n -> 1..n] : Inj(p)}, b \in {<<0, 0>>} \cup {<<c, x>> : c \in 1..n, x \in 1..n} :
-                        /\ (b[1] # b[2] \/ b = <<0, 0>>)
+              THEN /\ \E o \in {p \in [1..n -> 1..n] : Inj(p)}, b \in BackChoices(n) :
                         /\ (LateOrders = "two" => (o = Ident(n) \/ o = [i \in 1..n |-> n + 1 - i]))
                         /\ lay' = [order |-> o, back |-> b]
                    /\ born' = BornOf(lay'.order, lay'.back)
